@@ -60,3 +60,6 @@ LEVEL_TEXT = ("Proved in Lean for strings of every length: the arg-min specifica
               "periodic/near-periodic/Fibonacci words to 10^6) and every real output is judged against the arg-min spec. See the "
               "evidence field 'partial' for clauses that rest on correspondence only.")
 LEVEL_NOTE = "Trusted: Lean kernel; harness + polymodel; ASCII bytes; for inputs > 1500 letters the judge is the two-pointer algorithm (tested against the spec, not proved)."
+
+HARNESS_BIN = "run-seq"
+EXTRACT_BINS = ["extract-seq"]
